@@ -170,7 +170,8 @@ func scenario(c *vk.Ctx, i int) {
 		_ = st.SetSeqNum(fix.StorageID{Side: fix.Outgoing}, c0)
 	}
 	slowPeer := []time.Duration{0, 100 * time.Microsecond, 300 * time.Microsecond}[r.Intn(3)]
-	desc := fmt.Sprintf("%s flood=%v G=%d M=%d buf=%d chatty=%v storeDelayMaxUs=%d peerReadsEvery=%v c0=%d GOMAXPROCS=%d #%d", role, flood, G, M, buf, chatty, st.maxUs, slowPeer, c0, runtime.GOMAXPROCS(0), i)
+	reuse := (i/2)%2 == 1 // every sender goroutine builds one message object and sends that object M times
+	desc := fmt.Sprintf("%s reusedObjects=%v flood=%v G=%d M=%d buf=%d chatty=%v storeDelayMaxUs=%d peerReadsEvery=%v c0=%d GOMAXPROCS=%d #%d", role, reuse, flood, G, M, buf, chatty, st.maxUs, slowPeer, c0, runtime.GOMAXPROCS(0), i)
 	_ = desc
 	replay := map[string]interface{}{"scenario": desc, "index": i, "seed": c.Seed}
 	f, err := rig.StartFull(rig.FullCfg{Role: role, HeartBtInt: 1, BufSize: buf, Counter: st, Messages: st, Notify: true, Label: fmt.Sprintf("c05-%d", i),
@@ -210,11 +211,15 @@ func scenario(c *vk.Ctx, i int) {
 			defer wg.Done()
 			rr := rand.New(rand.NewSource(int64(i*100 + g)))
 			time.Sleep(time.Duration(rr.Intn(900)) * time.Millisecond)
+			own := fixgen.CreateMarketDataRequestReject(fmt.Sprintf("g%d-reused", g))
 			for k := 0; k < M; k++ {
 				if !flood && rr.Intn(4) == 0 {
 					time.Sleep(time.Duration(rr.Intn(700)) * time.Millisecond)
 				}
 				m := fixgen.CreateMarketDataRequestReject(fmt.Sprintf("g%d-%d", g, k))
+				if reuse {
+					m = own
+				}
 				t0 := time.Now().UnixNano()
 				err := l.S.Send(m)
 				t1 := time.Now().UnixNano()
@@ -344,6 +349,7 @@ func scenario(c *vk.Ctx, i int) {
 	c.SetAdd("gomaxprocs", strconv.Itoa(runtime.GOMAXPROCS(0)))
 	c.SetAdd("buffer_sizes", strconv.Itoa(buf))
 	c.SetAdd("sender_goroutines", strconv.Itoa(G))
+	c.SetAdd("reused_message_objects", strconv.FormatBool(reuse))
 	if c.WantSample() && i%5 == 0 {
 		c.Sample(map[string]interface{}{"scenario": desc, "wire_messages": len(frames), "interleaving_signature(a=app,h=hb-timer,t=tr-timer,r=reply/reject,l=logon)": vk.Trunc(sig, 200)})
 	}
@@ -375,7 +381,7 @@ func main() {
 	// one GOMAXPROCS setting per shard
 	gmp := []int{16, 1, 2}[c.Shard%3]
 	runtime.GOMAXPROCS(gmp)
-	c.Rule("session i: either role on the full stack (real Initiator.Serve / Acceptor.ListenAndServe goroutines on a scripted net.Conn), logon by the scripted peer with N=1, then G in {1,2,4,8,16} goroutines x M in 3..16 application sends in bursts spread over 2.6 s (so that heartbeat and test-request timers expire in between), while the peer injects TestRequests and damaged messages (replies and rejects originate on the inbound goroutine) or stays silent; handler buffer {0,1,10}; the peer reads instantly or takes 100/300 us per message (so that bursts fill the buffer); a store decorator sleeps 0..2 ms after the counter increment, inside Save and in an outgoing handler; one GOMAXPROCS value per shard {16,1,2}; optional second session on the same counter store. Oracle on the peer-side capture (reference splitter): 34 = c0+1,c0+2,... in wire order; 49/56; 52 parses, never goes backwards along the wire, is not later than the write, lies within [call,return] of its Send; porcupine counter model over the Send operations. distinct = (role, interleaving signature of source kinds on the wire, G, M, buffer); non-trivial = at least 2 source kinds on the wire")
+	c.Rule("session i: either role on the full stack (real Initiator.Serve / Acceptor.ListenAndServe goroutines on a scripted net.Conn), logon by the scripted peer with N=1, then G in {1,2,4,8,16} goroutines x M in 3..16 application sends (a fresh message object per send, or in every second pair of scenarios one object per goroutine sent M times) in bursts spread over 2.6 s (so that heartbeat and test-request timers expire in between), while the peer injects TestRequests and damaged messages (replies and rejects originate on the inbound goroutine) or stays silent; handler buffer {0,1,10}; the peer reads instantly or takes 100/300 us per message (so that bursts fill the buffer); a store decorator sleeps 0..2 ms after the counter increment, inside Save and in an outgoing handler; one GOMAXPROCS value per shard {16,1,2}; optional second session on the same counter store. Oracle on the peer-side capture (reference splitter): 34 = c0+1,c0+2,... in wire order; 49/56; 52 parses, never goes backwards along the wire, is not later than the write, lies within [call,return] of its Send; porcupine counter model over the Send operations. distinct = (role, interleaving signature of source kinds on the wire, G, M, buffer); non-trivial = at least 2 source kinds on the wire")
 	c.Assume("precondition of the statement: no handler refuses, the stores do not fail; clocks: wall clock without steps during a 3 s scenario (2 ms tolerance)")
 	n := c.Pick(24, 500) // per shard
 	var wg sync.WaitGroup
